@@ -131,6 +131,9 @@ def list_to_poly(P) -> pm.Poly:
 SMALL = [1, -1, 2, 3, -2, 5, -7, 8, 4, -3]
 LARGE = [2 ** 22, -(2 ** 22) + 1, 2 ** 21 + 12345, -1234567, 3 * 2 ** 20 + 1, 2 ** 22 - 3]
 DYAD = [Fraction(1, 2), Fraction(-3, 4), Fraction(5, 8), Fraction(-1, 16), Fraction(7, 2), Fraction(3, 256)]
+# ~1e-13 .. 3e-12: small, legitimately non-zero, above the 1e-14 cleaning tolerance of the substitutions; all multiples of 2^-43 with
+# small numerators, so that every partial sum is still exactly representable
+TINY = [Fraction(1, 2 ** 43), Fraction(-3, 2 ** 43), Fraction(8, 2 ** 43), Fraction(-5, 2 ** 43), Fraction(24, 2 ** 43), Fraction(7, 2 ** 43)]
 
 
 def _val(cls: str, cplx: bool, a: int, b: int):
@@ -138,7 +141,7 @@ def _val(cls: str, cplx: bool, a: int, b: int):
         r = random.Random(a * 1000003 + b)
         re, im = r.uniform(-2, 2), r.uniform(-2, 2)
     else:
-        tab = {"small": SMALL, "large": LARGE, "dyadic": DYAD}[cls]
+        tab = {"small": SMALL, "large": LARGE, "dyadic": DYAD, "tiny": TINY}[cls]
         re, im = tab[a % len(tab)], tab[(a * 7 + b * 3 + 1) % len(tab)]
     return complex(float(re), float(im)) if cplx else float(re)
 
@@ -225,7 +228,7 @@ class Case:
         self.ds = ds
         self.heavy = heavy
         self.op = ds.pick(OPLIST, "op", OPW_HEAVY if heavy else OPW)
-        self.cls = ds.pick(["small", "large", "dyadic", "float"], "coef_class", (0.5, 0.2, 0.15, 0.15))
+        self.cls = ds.pick(["small", "large", "dyadic", "float", "tiny"], "coef_class", (0.45, 0.2, 0.13, 0.14, 0.08))
         op = self.op
         if op in ("power", "substitute_linear", "substitute_affine", "poisson", "poisson_bracket") and self.cls == "large":
             self.cls = "small"  # keep every partial sum exactly representable
@@ -262,7 +265,7 @@ class Case:
     def _gen_scale(self):
         self.dp = self.ds.pick([2, 0, 1, 3, 5], "degree")
         self.p = gen_block(self.ds, self.dp, self.cls, self.cplx, "p")
-        self.alpha = _val("small" if self.cls == "large" else self.cls, self.cplx, self.ds.choose(10, "alpha"), 1)
+        self.alpha = _val("small" if self.cls in ("large", "tiny") else self.cls, self.cplx, self.ds.choose(10, "alpha"), 1)
         self.desc.update(deg=self.dp)
 
     def _one(self, degs):
@@ -283,12 +286,14 @@ class Case:
             kind = self.ds.choose(4, f"pt[{i}].kind", (0.6, 0.25, 0.1, 0.05))
             v = _val(pcls, True, self.ds.choose(10, f"pt[{i}]"), i)
             pt.append(v if kind == 0 else (0.0 if kind == 1 else (complex(v.real, 0.0) if kind == 2 else v * 0.0 + 1.0)))
+        if self.ds.flag("point.float64", 0.2):
+            return np.array([complex(x).real for x in pt], dtype=np.float64)   # a real-typed point
         return np.array(pt, dtype=np.complex128)
 
     def _gen_evaluate(self):
         self.dp = self.ds.pick([2, 1, 3, 0, 5, 8], "degree")
         self.p = gen_block(self.ds, self.dp, self.cls, self.cplx, "p")
-        pcls = "small" if self.cls == "large" else self.cls
+        pcls = "small" if self.cls in ("large", "tiny") else self.cls
         self.point = self._point(pcls)
         self.exact = False
         self.desc.update(deg=self.dp)
@@ -300,7 +305,10 @@ class Case:
         if self.max_deg + ex > 5:
             ex = max(0, 5 - self.max_deg)
         self.P = gen_list(self.ds, self.max_deg, self.cls, "P", extra=ex)
-        self.Q = gen_list(self.ds, self.max_deg, self.cls, "Q", extra=ex) if two else None
+        exq = ex
+        if self.op == "add_inplace" and self.max_deg >= 1:
+            exq = self.ds.pick([ex, 0, -1], "Q.blocks_relative_to_P")   # the added list may be shorter or longer than the target
+        self.Q = gen_list(self.ds, self.max_deg, self.cls, "Q", extra=exq) if two else None
         self.desc.update(max_deg=self.max_deg, operand_blocks=self.max_deg + ex + 1)
 
     def _gen_multiply(self):
@@ -327,7 +335,7 @@ class Case:
 
     def _gen_l_evaluate(self):
         self._lists(two=False)
-        pcls = "small" if self.cls == "large" else self.cls
+        pcls = "small" if self.cls in ("large", "tiny") else self.cls
         self.point = self._point(pcls)
         self.exact = False
 
@@ -349,8 +357,20 @@ class Case:
             P[d][pos] = _val(self.cls, True, ds.choose(10, f"P.term[{j}].val"), j)
         self.P = P
         C = np.zeros((6, 6), dtype=np.complex128 if ds.flag("C.complex", 0.3) else np.float64)
+        shape = ds.pick(["identity", "zero_row", "zero_diagonal", "permutation", "conjugate_pair"], "C.shape", (0.5, 0.15, 0.15, 0.1, 0.1))
         for i in range(6):
             C[i, i] = 1.0
+        if shape == "zero_row":
+            C[ds.choose(6, "C.zero_row"), :] = 0.0          # that variable maps to 0 (or, with a shift, to a pure constant)
+        elif shape == "zero_diagonal":
+            i = ds.choose(6, "C.zero_diag")
+            C[i, i] = 0.0
+            C[i, (i + 1) % 6] = 2.0
+        elif shape == "permutation":
+            C = C[[1, 0, 2, 4, 3, 5], :].copy()
+        elif shape == "conjugate_pair":
+            C = C.astype(np.complex128)
+            C[0, 0], C[0, 3], C[3, 0], C[3, 3] = 1.0, 1.0j, 1.0, -1.0j
         for j in range(ds.choose(5, "C.extra")):
             r, c = ds.choose(6, f"C[{j}].row"), ds.choose(6, f"C[{j}].col")
             v = SMALL[ds.choose(6, f"C[{j}].val")]
@@ -366,7 +386,7 @@ class Case:
 
     def _gen_reduced_monomial(self):
         ds = self.ds
-        cl = "small" if self.cls in ("large", "float") else self.cls
+        cl = "small" if self.cls in ("large", "float", "tiny") else self.cls
         self.cls, self.exact = cl, False
         self.k = np.array([ds.choose(4, f"k[{i}]") for i in range(6)], dtype=np.int64)
         self.point = self._point(cl)
@@ -377,7 +397,7 @@ class Case:
 
     def _gen_subst_coords(self):
         ds = self.ds
-        cl = "small" if self.cls in ("large", "float") else self.cls
+        cl = "small" if self.cls in ("large", "float", "tiny") else self.cls
         self.cls, self.exact = cl, True
         self.C = np.array([[_val(cl, self.cplx, ds.choose(10, f"M[{i}][{j}]"), i + j) if ds.flag(f"M[{i}][{j}].nz", 0.4) else 0.0
                             for j in range(6)] for i in range(6)], dtype=np.complex128 if self.cplx else np.float64)
